@@ -6,8 +6,6 @@ out = []
 files = {}
 for i in range(0, len(trip), 3):
     f, old, new = trip[i:i+3]
-    old = old.encode().decode('unicode_escape') if '\\n' in old or '\\t' in old else old
-    new = new.encode().decode('unicode_escape') if '\\n' in new or '\\t' in new else new
     s = files.get(f) or open('/repo/' + f).read()
     if s.count(old) != 1:
         sys.exit("pattern occurs %d times in %s: %r" % (s.count(old), f, old))
